@@ -26,6 +26,7 @@ fn main() {
         Some("c11-validate") => more::c11_validate(),
         Some("c08-flatten") => more::c08_flatten(),
         Some("c10-paths") => more::c10_paths(),
+        Some("c08-typeir") => more::c08_typeir(),
         _ => {
             eprintln!("usage: vreplay fmt-search <maxlen> <seed> | fmt-one <string> | fmt-repeat <string> <count>");
             2
